@@ -45,11 +45,13 @@ pub struct TestSource<'a> {
     /// `p` inter-channel samples and a read never crosses a packet boundary (short reads in mid-stream;
     /// the `Source` documentation does not forbid them). Used only by the mode-differential checks.
     pub packet: usize,
+    /// report the true length through `len_hint` (false: `None`, like a pipe)
+    pub hint: bool,
 }
 
 impl<'a> TestSource<'a> {
     pub fn new(samples: &'a [i32], channels: usize, bps: usize, rate: usize, kind: SrcKind) -> Self {
-        Self { samples, channels, bps, rate, kind, pos: 0, reads: 0, faults: vec![], fill_empty_at_end: true, scratch: vec![], scratch_i: vec![], packet: 0 }
+        Self { samples, channels, bps, rate, kind, pos: 0, reads: 0, faults: vec![], fill_empty_at_end: true, scratch: vec![], scratch_i: vec![], packet: 0, hint: false }
     }
     pub fn with_faults(mut self, f: Vec<Fault>) -> Self {
         self.faults = f;
@@ -66,6 +68,13 @@ impl<'a> Source for TestSource<'a> {
     }
     fn sample_rate(&self) -> usize {
         self.rate
+    }
+    fn len_hint(&self) -> Option<usize> {
+        if self.hint {
+            Some(self.samples.len() / self.channels.max(1))
+        } else {
+            None
+        }
     }
     fn read_samples<F: Fill>(&mut self, block_size: usize, dest: &mut F) -> Result<usize, SourceError> {
         let k = self.reads;
